@@ -341,16 +341,32 @@ func Run(ctx *common.Ctx) {
 	}
 	// sessions with the kinds of definition the Coq model does not cover (packages, flavors, generic functions):
 	// generated inside the region where the unchanged code restores them; judged here, on the implementation alone
-	for i := 0; i < next; i++ {
-		forms, probes, _ := genSession(rng, ctx.Hist, false, false)
+	// the enumerated block of class hierarchies first (42 sessions, every run), then the random sessions
+	var cblock [][]classDef
+	cblock = classBlock()
+	for i := 0; i < next+len(cblock); i++ {
+		var forms, probes []string
+		tag := "session:extended-tame"
+		if i < len(cblock) {
+			forms, probes = classSession(cblock[i], i)
+			tag = "block:class-hierarchy-session"
+		} else {
+			forms, probes, _ = genSession(rng, ctx.Hist, false, false)
+		}
 		o, err := runSession(dir, 5000+i, base, forms, probes, false)
 		if err != nil {
 			ctx.Violate("the worker process failed on a session", forms, err.Error(), nil)
 			continue
 		}
-		ctx.Hist("session:extended-tame")
+		ctx.Hist(tag)
 		ctx.Meta.Evaluations++
 		distinct[strings.Join(forms, " ")] = true
+		// the order of the classes section against the model (coq/C19/Classes.v) and the verified checker
+		if term, ok := classCase(forms, o.Snap1); ok && !o.snapFail {
+			ctx.Hist("case:class-order")
+			terms = append(terms, term)
+			descs = append(descs, map[string]any{"forms": forms, "snapshot1_user_forms": o.Snap1})
+		}
 		bad := len(o.Problems) > 0
 		for k, dres := range o.Define {
 			if strings.HasPrefix(dres, "!") {
